@@ -271,8 +271,19 @@ KeyOrder == <<3, 4, 5, 2, 16, 9, 10, 11, 13, 14, 12, 15, 6, 7, 8, 1>>
 ASSUME /\ {KeyOrder[i] : i \in 1..Len(KeyOrder)} = AllKeyIds /\ Len(KeyOrder) = 16
        /\ \A i \in 1..15 : PathLess(PathOf(KeyOrder[i]), PathOf(KeyOrder[i + 1]))
 
+(* The statement's "ascending key order" read literally is the order of the key BYTES: a key   *)
+(* that is a proper prefix of another comes first.  The trie's pre-order puts it last (the    *)
+(* value slot of a branch is child 16).  The two differ only when a live key is a proper      *)
+(* prefix of another live key.                                                                *)
+BytesLess(a, b) == LET m == PrefixLen(a, b)
+                   IN  IF m = Len(a) THEN m < Len(b) ELSE IF m = Len(b) THEN FALSE ELSE a[m + 1] < b[m + 1]
+KeyOrderBytes == <<1, 2, 3, 4, 5, 16, 15, 12, 9, 10, 11, 14, 13, 6, 7, 8>>
+ASSUME /\ {KeyOrderBytes[i] : i \in 1..Len(KeyOrderBytes)} = AllKeyIds /\ Len(KeyOrderBytes) = 16
+       /\ \A i \in 1..15 : BytesLess(KeyBytes(KeyOrderBytes[i]), KeyBytes(KeyOrderBytes[i + 1]))
+
 Live(c)     == {k \in DOMAIN c : c[k] # 0}
 IterOf(c)   == LET s == SelectSeq(KeyOrder, LAMBDA k : k \in Live(c)) IN [i \in 1..Len(s) |-> <<s[i], c[s[i]]>>]
+IterBytesOf(c) == LET s == SelectSeq(KeyOrderBytes, LAMBDA k : k \in Live(c)) IN [i \in 1..Len(s) |-> <<s[i], c[s[i]]>>]
 
 (* pre-order list of the nodes of a resolved tree:                         *)
 (*   <<path, kind, key-or-value, embedded>>                                *)
